@@ -113,14 +113,16 @@ structure Clock where
   notified : Bool
   run : Bool
   tempo : Tempo
+  fresh : Bool           -- TempoClock: the third loop re-reads `elapsed_beats()` for every task
+                         -- (D-C08-3); SystemClock keeps the `now` of the second loop
   next : Nat             -- ghost: next stamp
   evalNow : Rat          -- ghost: `now` of the last evaluation
   evalTempo : Tempo      -- ghost: tempo map at the last evaluation
   hist : List Ev         -- ghost: newest first
 deriving Repr
 
-def Clock.init (T : Tempo) : Clock :=
-  { q := [], pc := .top, notified := false, run := true, tempo := T, next := 0,
+def Clock.init (T : Tempo) (fresh : Bool := false) : Clock :=
+  { q := [], pc := .top, notified := false, run := true, tempo := T, fresh := fresh, next := 0,
     evalNow := 0, evalTempo := T, hist := [] }
 
 inductive Op where
@@ -203,14 +205,21 @@ def Clock.eval (c : Clock) (now : Rat) : Clock :=
     else { c with pc := .parkedUntil (c.tempo.beats2secs x.key),
                   hist := Ev.wait (some (c.tempo.beats2secs x.key - now)) :: c.hist }
 
+/-- the value the third loop compares the head with: the stale variable, or a fresh reading -/
+def Clock.batchE (c : Clock) (e now : Rat) : Rat := if c.fresh then c.tempo.secs2beats now else e
+def Clock.batchNow (c : Clock) (now : Rat) : Rat := if c.fresh then now else c.evalNow
+def Clock.batchTempo (c : Clock) : Tempo := if c.fresh then c.tempo else c.evalTempo
+
 /-- one iteration test of the third loop -/
 def Clock.batchStep (c : Clock) (e now : Rat) : Clock :=
   match c.q with
   | [] => { c with pc := .top }
   | x :: xs =>
-    if x.key ≤ e then
-      { c with q := xs, pc := .inAwake e x,
-               hist := Ev.awake x e c.evalNow c.evalTempo now (c.tempo.beats2secs x.key) :: c.hist }
+    if x.key ≤ c.batchE e now then
+      { c with q := xs, pc := .inAwake (c.batchE e now) x,
+               evalNow := c.batchNow now, evalTempo := c.batchTempo,
+               hist := Ev.awake x (c.batchE e now) (c.batchNow now) c.batchTempo now
+                         (c.tempo.beats2secs x.key) :: c.hist }
     else { c with pc := .top }
 
 def Clock.thr (c : Clock) (now : Rat) : Option Clock :=
